@@ -25,6 +25,26 @@ Lemma server_equivalent_after et c sv hist q :
   fst (serve_srv et c (srv_after et c sv hist) q) = fst (serve_srv et c sv q).
 Proof. rewrite !serve_srv_fst. reflexivity. Qed.
 
+(* ---------- requests served while another one is in flight ---------- *)
+Lemma run_nest_responses et c : forall t sv,
+  fst (run_nest et c sv t) = map (serve_req et c) (nest_reqs t).
+Proof.
+  fix IH 1. intros [q inner] sv. cbn [run_nest nest_reqs fst map]. f_equal.
+  generalize ({| gz_pool := if uses_gz c q then snd (pool_get (gz_pool sv)) else gz_pool sv;
+                 buf_pool := if uses_buf c q then snd (pool_get (buf_pool sv)) else buf_pool sv |}).
+  induction inner as [|t' l IHl]; intro sv1; [reflexivity|].
+  cbn [flat_map fst snd]. rewrite map_app, IH. f_equal. apply IHl.
+Qed.
+
+(* the pooled objects of the request in flight are not in the pools the inner requests see:
+   the pools in between are the initial ones minus what the outer request took *)
+Lemma run_nest_holds_objects et c q sv :
+  snd (run_nest et c sv (Nest q [])) = snd (serve_srv et c sv q).
+Proof.
+  cbn [run_nest snd fst]. unfold serve_srv, uses_gz, uses_buf. cbn [snd fst gz_pool buf_pool].
+  destruct (c_gzip c && q_ae q), (tmode_of c (q_path q)); reflexivity.
+Qed.
+
 (* ---------- frames: what the writers of a level leave alone ---------- *)
 Definition frame_g (x y : st) : Prop :=
   h_on y = h_on x /\ h_wrote y = h_wrote x /\ b_mode y = b_mode x /\ b_wrote y = b_wrote x /\
